@@ -8,10 +8,15 @@
 Generate type stubs for configurations.
 """
 import inspect
-from typing import Any, Dict, Optional, Type, Union
+import types
+from typing import Any, Dict, Optional, Type, TypeVar, Union
 
 from .core import BaseField, Config, ConfigType, ConfigTypeField, Field, Schema
 from .fields import InstanceMethodField, VirtualField
+
+
+#: PEP 604 unions (``int | None``), available since Python 3.10
+_UNION_TYPES = (types.UnionType,) if hasattr(types, "UnionType") else ()
 
 
 def get_annotation_typestr(field: Union[BaseField, Type, str]) -> str:
@@ -34,8 +39,17 @@ def get_annotation_typestr(field: Union[BaseField, Type, str]) -> str:
         storage_type = field
     elif field is None:
         storage_type = "None"
-    elif getattr(field, "__module__", None) == "typing" or hasattr(field, "__origin__"):
-        # typing generics (typing.List[int], Optional[str], list[int], ...)
+    elif isinstance(field, TypeVar):
+        storage_type = field.__name__
+    elif hasattr(field, "__supertype__"):
+        # typing.NewType
+        storage_type = "%s.%s" % (field.__module__, field.__name__)
+    elif (
+        getattr(field, "__module__", None) == "typing"
+        or hasattr(field, "__origin__")
+        or isinstance(field, _UNION_TYPES)
+    ):
+        # typing generics (typing.List[int], Optional[str], list[int], int | None, ...)
         storage_type = field
     else:
         raise TypeError("Unknown storage_type: %s" % type(field))
